@@ -6,7 +6,7 @@ ENTRY = dict(
          "(CRead), and the body of the exact-size read is handed to ExtensionFromID(id).Write (both PSK choices for id 41) "
          "whose object is measured and read again (CWrite). Added: six GREASE-ECH bodies with payloads of 0,1,15,16,17,144 "
          "bytes, n malformed bodies (random, shaped, truncated or extended by one byte) against every known, some GREASE "
-         "and some unknown ids, and 12 values beyond the one-byte-prefix limits (error branches and narrowings, no oracle). "
+         "and some unknown ids, and 18 values beyond the one-byte-prefix limits (error branches and the remaining ALPN narrowing; oracle: what Read accepts must have matching prefixes). "
          "A case is distinct by (type, size, index, buffer class) resp. (type, size, index, psk choice) or corpus index; a "
          "read is non-trivial when Len > 4 and the buffer is large enough, a write when the body is non-empty and Write "
          "accepted it.",
